@@ -119,6 +119,32 @@ def runWrites : State → List (Nat × Bytes) → State × Option UErr
 
 end Up
 
+/-! ## Crash during `MPUFileSink.finalise` (70-94) -/
+
+/-- `finalise(parts, keep_parts=False)` interrupted (process killed, disk error) after the first `k` listed parts
+have been dealt with completely - the first renamed onto the destination, every further one appended AND unlinked;
+`k = 0`: before the rename.  The parts directory is still there. -/
+def Sink.finaliseCrash (s : Sink) (ps : List Nat) (k : Nat) : Sink :=
+  match ps.take k with
+  | [] => s
+  | first :: rest =>
+    match s.lookup first with
+    | none => s
+    | some d => (Sink.appendParts true false { (s.unlink first) with dst := some d } rest).1
+
+/-- `list_active()` (172-175) asks for ONE page: `list_multipart_uploads` answers with at most `page` uploads
+(1000 on S3) and `IsTruncated`; the code does not follow `NextKeyMarker` / `NextUploadIdMarker`.  `cancel("all")`
+therefore aborts the first `page` active uploads of the key (oldest first), then resets the object. -/
+def cancelAllPaged (page : Nat) (s : Seq.State) : Seq.State × List Seq.SCall :=
+  let listed := s.active.take page
+  ({ s with uploadId := 0, active := s.active.drop page, aborted := listed ++ s.aborted },
+   .list :: listed.map .abort)
+
+/-- `cancel("all")` repeated `n` times -/
+def cancelAllPagedN (page : Nat) : Nat → Seq.State → Seq.State
+  | 0, s => s
+  | n + 1, s => cancelAllPagedN page n (cancelAllPaged page s).1
+
 /-! ## Glue of the public entry points -/
 
 /-- the limits `mpu_write` reads off a `DelayedS3Writer` (`S3Limits`) -/
